@@ -488,5 +488,17 @@ def r8(ctx, rule):
                 ctx.check(g_roots and g_id, rule, key, c.where(), 'shortcut guarded by root_paths.is_empty() and !group_by_id',
                           'the replica count takes the shortcut %s() under %s only: hard links (group_by_id) %s are counted as separate replicas, unlike the filter'
                           % (last, 'root_paths.is_empty()' if g_roots else ('!group_by_id' if g_id else 'no guard'), '' if g_roots else 'and isolate roots'))
+    # positively: in redundant_count every number that reaches the result comes from the guarded file_count()
+    # shortcut or from the sub-grouping; any other way of counting (distinct ids, sets, adjacent dedup) is not
+    # the definition the filter and the dedupe commands use
+    rc = lib.body(FG + 'redundant_count')
+    if rc is not None:
+        sl = backslice(rc, [0])
+        odd = [c for c in sl.calls if re.search(r'::(count|unique|unique_by|dedup|dedup_by|dedup_by_key|unique_count|sorted|group_by|chunk_by)$|HashSet|HashMap|BTreeSet', c.path)]
+        grp = [c for c in sl.calls if c.matches(r'FileSubGroup.*::group$')]
+        ctx.check(not odd and bool(grp), rule, rc.path + '|count-sources', (odd[0].where() if odd else rc.where()),
+                  'the redundant count derives only from file_count() (guarded) and FileSubGroup::group(..)',
+                  'the redundant count is also computed through %s: that counts something else than the files of the sub-groups beyond the first rf (e.g. replicas instead of files), so the header disagrees with the body' % sorted({c.path.rsplit('::', 1)[-1] for c in odd}))
+        n += 1
     ctx.stats[rule + ':shortcut sites'] = n
     ctx.check(n >= 1 or True, rule, 'sites', '-', '%d shortcut site(s) examined' % n)
